@@ -184,6 +184,14 @@ pub fn run(cx: &mut Ctx) {
                     if let Some(v) = call(cx, "C09|PwHash::verify", "PwHash::verify", c, || ph.verify(&pw)) {
                         expect(cx, "C09|PwHash::verify|rejects_right_password", v.is_ok(), c);
                     }
+                    // the same through the encoded string (hash / salt lengths other than the defaults must survive)
+                    if let Some(Ok(p2)) = call(cx, "C09|PwHash::from_string", "PwHash::from_string", c, || PwHash::<Vec<u8>, Vec<u8>>::from_string(&ph.to_string())) {
+                        if let Some(v) = call(cx, "C09|PwHash::verify", "PwHash::verify", c, || p2.verify(&pw)) {
+                            expect(cx, "C09|PwHash::to_string+from_string+verify|rejects_right_password", v.is_ok(), c);
+                        }
+                    } else {
+                        cx.violation("C09|PwHash::from_string|rejects_own_string", c());
+                    }
                     for k in 0..3 {
                         let mut bad = pw.clone();
                         match k {
@@ -232,6 +240,17 @@ pub fn run(cx: &mut Ctx) {
         }
         rej(cx, "opslimit=0", 32, &salt0, 0, 8192);
         rej(cx, "opslimit=max+1", 32, &salt0, CRYPTO_PWHASH_OPSLIMIT_MAX + 1, 8192);
+        // values whose low 32 bits would be an acceptable cost
+        for k in [1u64, 2, 3] {
+            rej(cx, &format!("opslimit=2^32+{}", k), 32, &salt0, (1u64 << 32) + k, 8192);
+            rej(cx, &format!("opslimit=2^33+{}", k), 32, &salt0, (1u64 << 33) + k, 8192);
+        }
+        rej(cx, "opslimit=u64max", 32, &salt0, u64::MAX, 8192);
+        for extra in [8192usize, 9216, 65536] {
+            rej(cx, &format!("memlimit=2^42+{}", extra), 32, &salt0, 1, (1usize << 42) + extra);
+            rej(cx, &format!("memlimit=2^52+{}", extra), 32, &salt0, 1, (1usize << 52) + extra);
+        }
+        rej(cx, "memlimit=usizemax", 32, &salt0, 1, usize::MAX);
         for mem in [0usize, 1, 1024, 8191] {
             rej(cx, &format!("memlimit={}", mem), 32, &salt0, 1, mem);
         }
